@@ -1,0 +1,7 @@
+//go:build !verif
+// +build !verif
+
+package capnp
+
+// verifYield is a no-op without the verif build tag.
+func verifYield(site string) {}
